@@ -116,6 +116,23 @@ Proof.
   - apply Forall_forall. intros [it o] Hi. cbn [snd]. exact (unauthorized_inert e p r it o Hi (H it o Hi)).
 Qed.
 
+(* a topic is only ever created for a principal that may produce to it (auto-creation, from
+   whichever request kind) or that administers the cluster (CreateTopics) *)
+Theorem creation_needs_permission e p r n :
+  In n (creates e p r) -> p AProduce RTopic n = true \/ p AAdmin RCluster s_cluster = true.
+Proof.
+  intros H. destruct r; cbn [creates] in H; try (destruct H; fail).
+  - destruct (auto_create e); [|destruct H]. apply filter_In in H as [_ H].
+    apply andb_true_iff in H as [_ H]. now left.
+  - destruct (auto_create e); [|destruct H]. apply filter_In in H as [_ H].
+    apply andb_true_iff in H as [_ H]. now left.
+  - destruct (auto_create e); [|destruct H]. apply filter_In in H as [_ H].
+    apply andb_true_iff in H as [_ H]. now left.
+  - destruct (auto_create e && forallb (p AFetch RTopic) topics); [|destruct H]. apply filter_In in H as [_ H].
+    apply andb_true_iff in H as [_ H]. now left.
+  - destruct (p AAdmin RCluster s_cluster) eqn:E; [now right|destruct H].
+Qed.
+
 (* the model is not vacuous the other way: with the permission, Produce proceeds *)
 Lemma authorized_proceeds e p ts t : In t ts -> p AProduce RTopic t = true -> In (0, t) (effects (handle e p (RProduce ts))).
 Proof.
